@@ -223,7 +223,7 @@ def passthrough_helpers(cls: ClassInfo) -> Set[str]:
     out: Set[str] = set()
     for k in [cls] + list(cls.mro):
         for name, m in k.methods.items():
-            ps = [a.arg for a in m.node.args.args if a.arg not in ("self", "cls")]
+            ps = [a.arg for a in list(m.node.args.posonlyargs) + list(m.node.args.args) if a.arg not in ("self", "cls")]
             kw = m.node.args.kwarg.arg if m.node.args.kwarg else None
             if len(ps) != 1 or kw is None:
                 continue
